@@ -186,6 +186,17 @@ def doc_task(task):
         return nev, fails, 0
     if c.container is doc.container or getattr(c.container, "_Container__parts") is getattr(doc.container, "_Container__parts"):
         fail(cls0, "identity", "own container", "shared", "shared-container-object")
+    # a clone of the clone, taken at once
+    try:
+        doc2 = prepare(seed, prep)
+        c2 = doc2.clone.clone
+        nev += 1
+        cs2 = doc_snapshot(c2)
+        if cs2 != before:
+            diff = sorted(k for k in set(before) | set(cs2) if before.get(k) != cs2.get(k))
+            fail(cls0, "clone-of-clone-equal", "same parts", diff, "clone-of-clone-differs")
+    except Exception as e:
+        fail(cls0, "clone-of-clone", "no exception", type(e).__name__, f"clone-of-clone-raises:{type(e).__name__}")
 
     # alone references
     alone_o, alone_c = {}, {}
@@ -266,6 +277,13 @@ def container_task(task):
     if s2 != before:
         fail("equal-at-birth", "same parts", sorted(k for k in set(s2) | set(before) if s2.get(k) != before.get(k)), "clone-differs-at-birth")
         return nev, fails, 0
+    try:
+        nev += 1
+        s3 = container_snapshot(mk().clone.clone)
+        if s3 != before:
+            fail("clone-of-clone-equal", "same parts", sorted(k for k in set(s3) | set(before) if s3.get(k) != before.get(k)), "clone-of-clone-differs")
+    except Exception as e:
+        fail("clone-of-clone", "no exception", type(e).__name__, f"clone-of-clone-raises:{type(e).__name__}")
     ops = [("set_part", "content.xml", b"<b/>"), ("set_part", "x.bin", b"x"), ("del_part", "styles.xml"), ("get_part", "settings.xml")]
 
     def do(cont, op):
@@ -330,6 +348,20 @@ def part_task(task):
         fail("equal-at-birth", "same serialisation", "differs", "clone-differs-at-birth")
     if rc != part.root.serialize():
         fail("equal-at-birth-root", "same root", "differs", "clone-root-differs-at-birth")
+    # a clone of a clone (taken before the first clone was touched, and after its serialize()):
+    # "indistinguishable from the original when taken" holds along chains
+    for touch in ("untouched", "serialized"):
+        doc, part = mk()
+        nev += 1
+        try:
+            c1 = part.clone
+            if touch == "serialized":
+                c1.serialize()
+            c2 = c1.clone
+            if canon_bytes("content.xml", c2.serialize()) != canon_bytes("content.xml", part.serialize()) or c2.root.serialize() != part.root.serialize():
+                fail("clone-of-clone-equal", "same serialisation and root as the original", "differs", "clone-of-clone-differs", chain=touch)
+        except Exception as e:
+            fail("clone-of-clone", "no exception", type(e).__name__, f"clone-of-clone-raises:{type(e).__name__}", chain=touch)
     # independence
     for target in ("orig", "clone"):
         doc, part = mk()
